@@ -348,6 +348,7 @@ func c04Search(c mcfg, first int, depth int) Scenario {
 
 func c04Scenarios(tier string) []Scenario {
 	var out []Scenario
+	out = append(out, c04DuringDestroy("C04"))
 	depth := 4
 	if tier == "thorough" {
 		depth = 5
@@ -628,6 +629,102 @@ func heldAcrossClunkScenario(prop string) Scenario {
 			}
 		}
 		res.Samples = append(res.Samples, "request held on fid 1 (read/stat/walk/write) x Tclunk/Tremove of fid 1 x number bound again x held request completes x probes x disconnect, both dialects, Maxpend 0/2")
+		return res
+	}}
+}
+
+// c04DuringDestroy: the implementation is slow inside FidDestroy (after Tclunk or
+// Tremove of fid 1). Requests that name the fid meanwhile are refused and never reach
+// the implementation - its destruction has been reported; once FidDestroy has returned
+// the number is bound again and the new fid stays usable whatever happened in between.
+func c04DuringDestroy(prop string) Scenario {
+	return Scenario{Name: "requests naming a fid while the implementation is inside its FidDestroy", Run: func(rc *RunCtx) *Result {
+		res := &Result{Exhaustive: true}
+		seen := map[string]bool{}
+		for _, drop := range []string{"clunk", "remove"} {
+			for _, probe := range []string{"stat", "walk", "clunk", "read"} {
+				for _, keep := range []bool{false, true} {
+					for _, dotu := range []bool{false, true} {
+						var bad string
+						body := func() {
+							s := newSess(SrvOpt{Msize: 256, Dotu: dotu, Maxpend: 1})
+							s.rpcOK(twalk(s.tag(), 0, 1, "d", "h"), wire.Rwalk)
+							if probe == "read" {
+								s.rpcOK(&wire.Msg{Type: wire.Topen, Tag: s.tag(), Fid: 1, Mode: 0}, wire.Ropen)
+							}
+							g := vs.NewSem(0)
+							s.fs.Script[reqKey{0, 100, 0}] = &Action{DestroyGate: g}
+							typ := uint8(wire.Tclunk)
+							if drop == "remove" {
+								typ = wire.Tremove
+							}
+							n0 := len(s.fs.Log)
+							s.c.Send(dotu, &wire.Msg{Type: typ, Tag: 100, Fid: 1})
+							vs.Idle() // the implementation is inside FidDestroy now (or about to be told)
+							var pm *wire.Msg
+							switch probe {
+							case "stat":
+								pm = &wire.Msg{Type: wire.Tstat, Tag: 101, Fid: 1}
+							case "walk":
+								pm = twalk(101, 1, 7)
+							case "clunk":
+								pm = &wire.Msg{Type: wire.Tclunk, Tag: 101, Fid: 1}
+							case "read":
+								pm = &wire.Msg{Type: wire.Tread, Tag: 101, Fid: 1, Count: 4}
+							}
+							kg := vs.NewSem(0)
+							if keep {
+								s.fs.Script[reqKey{0, 101, 0}] = &Action{Gate: kg}
+							}
+							s.c.Send(dotu, pm)
+							vs.Idle()
+							g.Release()
+							vs.Idle()
+							for _, e := range s.fs.Log[n0:] {
+								if e.Kind == "call" && e.Tag == 101 {
+									bad = fmt.Sprintf("a T%s naming fid 1 reached the implementation (%s) although FidDestroy had been reported for that fid (it was still running)", probe, e.Op)
+								}
+							}
+							// the number is free: bind it again, then let whatever was kept finish
+							if r := s.c.Rpc(twalk(102, 0, 1, "f")); bad == "" && (r == nil || r.Type != wire.Rwalk) {
+								bad = fmt.Sprintf("after Rclunk and the end of FidDestroy the fid number cannot be bound again: %v", r)
+							}
+							kg.Release()
+							vs.Idle()
+							if r := s.c.Rpc(&wire.Msg{Type: wire.Tstat, Tag: 103, Fid: 1}); bad == "" && (r == nil || r.Type != wire.Rstat) {
+								bad = fmt.Sprintf("the fid bound to the number after the old one was destroyed answers Tstat with %v", r)
+							}
+							nd := 0
+							for _, e := range s.fs.Log[n0:] {
+								if e.Kind == "destroy" {
+									nd++
+								}
+							}
+							if bad == "" && nd != 1 {
+								bad = fmt.Sprintf("FidDestroy was reported %d times", nd)
+							}
+						}
+						x := vs.Run(nil, body, vs.Options{Horizon: 100000000})
+						res.Evals++
+						res.Nontrivial++
+						res.States++
+						res.Traces++
+						if len(x.Panics) > 0 {
+							bad = "panic: " + x.Panics[0].Value
+						} else if len(x.Fails) > 0 && bad == "" {
+							bad = "harness: " + x.Fails[0]
+						}
+						if bad != "" {
+							sig := prop + "/during-destroy/" + sigWords(bad)
+							if !seen[sig] {
+								seen[sig] = true
+								res.Findings = append(res.Findings, Finding{Sig: sig, Msg: fmt.Sprintf("T%s then T%s (kept by the implementation if it gets there: %v), dotu=%v: %s", drop, probe, keep, dotu, bad)})
+							}
+						}
+					}
+				}
+			}
+		}
 		return res
 	}}
 }
